@@ -5,8 +5,9 @@ the hypothesis?".  Guards are therefore judged by what they accept and reject, n
 by how they are spelled: `not v`, `'#' not in v`, `v == '\\n'`, `not v.strip()`,
 `not any(n.whitespaces and ... for n in (a, b))` all reject a comment-holding value.
 
-Nothing here executes repository code; expressions are interpreted over a tiny domain
-(constants, str methods, len, any/all, in, ==, and/or/not).
+Nothing here executes repository code or interprets statement sequences: only *branch predicates* (atoms) are given a
+truth value in the world a hypothesis describes (constants, str predicates, len, any/all, in, ==, and/or/not);
+statements are followed only for copy propagation of locals, for kills of the hypothesis and for constant stores.
 """
 from __future__ import annotations
 
@@ -95,15 +96,21 @@ def truth(v: T.Any) -> T.Optional[bool]:
 
 class Evaluator:
     def __init__(self, env: T.Dict[str, T.Any], consts: T.Optional[T.Callable[[ast.AST], T.Any]] = None,
-                 calls: T.Optional[T.Callable[[ast.Call, 'Evaluator'], T.Any]] = None):
+                 calls: T.Optional[T.Callable[[ast.Call, 'Evaluator'], T.Any]] = None,
+                 atoms: T.Optional[T.Callable[[ast.AST], T.Any]] = None):
         self.env = env
         self.consts = consts
         self.calls = calls
+        self.atoms = atoms
 
     def ev(self, e: ast.AST) -> T.Any:
         k = key(e)
         if k in self.env:
             return self.env[k]
+        if self.atoms is not None:
+            v = self.atoms(e)
+            if v is not UNKNOWN:
+                return v
         m = getattr(self, 'e_' + e.__class__.__name__, None)
         if m is None:
             return UNKNOWN
@@ -188,6 +195,9 @@ class Evaluator:
         return self.ev(e.body if t else e.orelse)
 
     def e_BinOp(self, e: ast.BinOp) -> T.Any:
+        # constant folding only: no arithmetic on hypothesised values
+        if not (isinstance(e.left, ast.Constant) and isinstance(e.right, ast.Constant)):
+            return UNKNOWN
         l, r = self.ev(e.left), self.ev(e.right)
         if l is UNKNOWN or r is UNKNOWN or isinstance(l, Present) or isinstance(r, Present):
             return UNKNOWN
@@ -468,10 +478,12 @@ class Hyp:
     """A hypothesis: `stable` facts (structure, configuration: only an explicit write kills them) and `volatile` facts
     (whitespace content: any call that is handed the owner may have changed it, so tests made before such a call say
     nothing about the value at the site)."""
-    def __init__(self, stable: T.Optional[T.Dict[str, T.Any]] = None, volatile: T.Optional[T.Dict[str, T.Any]] = None, label: str = ''):
+    def __init__(self, stable: T.Optional[T.Dict[str, T.Any]] = None, volatile: T.Optional[T.Dict[str, T.Any]] = None, label: str = '',
+                 atoms: T.Optional[T.Callable[[ast.AST], T.Any]] = None):
         self.stable = dict(stable or {})
         self.volatile = dict(volatile or {})
         self.label = label
+        self.atoms = atoms      # truth value of canonical atoms in the world this hypothesis describes
 
 
 class Reach(T.NamedTuple):
@@ -581,11 +593,13 @@ def _walk(p: Path, prefix: T.List[Event], hyp: Hyp, observer: T.Optional[Observe
             e = sub(ev.node)
             full = dict(stable)
             full.update(volatile)
-            v = truth(Evaluator(full, consts, calls).ev(e))
+            v = truth(Evaluator(full, consts, calls, hyp.atoms).ev(e))
             if v is None:
                 # a test that mentions a hypothesised location but is not understood
                 mentioned = _chains_of_key(norm(e))
                 for k, kv in full.items():
+                    if isinstance(kv, bool):
+                        continue      # a truth atom of the world: decided whenever it is tested as such
                     structural = isinstance(kv, (list, tuple, dict, set, frozenset))
                     for kc in _chains_of_key(k):
                         # a test *about the hypothesised value itself* (not about things reachable through it)
@@ -593,7 +607,7 @@ def _walk(p: Path, prefix: T.List[Event], hyp: Hyp, observer: T.Optional[Observe
                             notes.setdefault('unknown', []).append(short(e, 80))
             if v is not None and v != ev.val:
                 # which part of the hypothesis decided it?
-                vs = truth(Evaluator(stable, consts, calls).ev(e))
+                vs = truth(Evaluator(stable, consts, calls, hyp.atoms).ev(e))
                 if vs is not None and vs != ev.val:
                     contradicted_stable = True
                 else:
@@ -643,13 +657,12 @@ def _walk(p: Path, prefix: T.List[Event], hyp: Hyp, observer: T.Optional[Observe
                     unbind([t])
                 else:
                     tk = norm(sub(t))
-                    full = dict(stable)
-                    full.update(volatile)
-                    nv = Evaluator(full, consts, calls).ev(sub(val))
                     was_vol = tk in volatile
                     kill(tk)
-                    if nv is not UNKNOWN and len(node.targets) == 1:
-                        (volatile if was_vol else stable)[tk] = nv     # the store is a known value from here on
+                    if isinstance(val, ast.Constant) and len(node.targets) == 1:
+                        # a constant store decides later tests of the same location (x.f = True; if x.f:);
+                        # nothing computed from inputs is ever propagated through a statement
+                        (volatile if was_vol else stable)[tk] = val.value
         elif isinstance(node, ast.AnnAssign):
             if isinstance(node.target, ast.Name):
                 unbind([node.target])
